@@ -281,7 +281,8 @@ func runDictCase(c *Case, env *Env) *Result {
 			for _, to := range all {
 				present[string(to.Term)] = to.Count
 			}
-			for _, pr := range q.Probes {
+			var prevPL segment.PostingsList
+			for pi, pr := range q.Probes {
 				term := []byte("absent-term")
 				if pr < len(vocab) {
 					term = []byte(vocab[pr])
@@ -296,11 +297,17 @@ func runDictCase(c *Case, env *Env) *Result {
 					f = mismatch("C08", "dictionary", "contains", fmt.Sprintf("%s: Contains(%q)=%v want %v", where, string(term), in, wantIn))
 					return
 				}
-				pl, err := dict.PostingsList(term, nil, nil)
+				// every other probe recycles the previous probe's list
+				var pre segment.PostingsList
+				if pi%2 == 1 {
+					pre = prevPL
+				}
+				pl, err := dict.PostingsList(term, nil, pre)
 				if err != nil {
 					f = apiFail("C08", "dictionary", "PostingsList", nil, err)
 					return
 				}
+				prevPL = pl
 				if pl.Count() != wantN {
 					f = mismatch("C08", "dictionary", "postings-count", fmt.Sprintf("%s: PostingsList(%q).Count()=%d want %d", where, string(term), pl.Count(), wantN))
 					return
